@@ -8,7 +8,20 @@ from . import cfgfamily, cfgmachine
 def run(tier, seed):
     out = cfgmachine.run_machine("C13", [], ["C13_Isolated"], tier, seed)
     # and on the generated schema family (every schema shape)
-    return cfgmachine.merge(out, cfgfamily.run_family("C13", [], ["C13_Isolated"], tier, seed))
+    out = cfgmachine.merge(out, cfgfamily.run_family("C13", [], ["C13_Isolated"], tier, seed))
+    if tier == "quick":
+        # file loads: in the include machinery's world (IncludeLab.tla, props/c18.py) every load is
+        # preceded by ANOTHER configuration of the same schema loading a file from a different
+        # directory; the specification's answer does not depend on it, so a difference there is
+        # state shared between configurations through the schema
+        from . import c18
+
+        inc = c18.run("quick", seed)
+        for v in inc.violations:
+            out.violation("file-load-sharing:" + v["signature"], "load after another configuration's file load: " + v["summary"], v["replay"])
+        out.coverage["file_load_cases_with_decoy"] = inc.coverage.get("traces_validated_against_impl")
+        out.assumptions.append("file loads with include fields are decided on IncludeLab.tla (C18's machinery), each preceded by a decoy load of another configuration")
+    return out
 
 
 replay_file = cfgmachine.replay_file
